@@ -6,11 +6,13 @@ import (
 	"fmt"
 	"io"
 	"testing"
+	"time"
 
 	"github.com/gogo/protobuf/proto"
 	pb "github.com/ipfs/boxo/ipld/unixfs/pb"
 	"github.com/ipfs/go-cid"
 	"github.com/ipfs/go-unixfsnode/data"
+	"github.com/ipld/go-ipld-prime"
 	"github.com/ipld/go-ipld-prime/datamodel"
 	"github.com/ipld/go-ipld-prime/node/basicnode"
 	"pgregory.net/rapid"
@@ -507,4 +509,84 @@ func FuzzC13_HostileDAG(f *testing.F) {
 			t.Fatalf("C13: unbounded work on hostile DAG %s: %s", root, xs.violation)
 		}
 	}))
+}
+
+// sharedChain builds a HAMT of `depth` blocks in which every shard links the SAME child shard under two bucket names and the
+// innermost shard is empty: a DAG with shared subtrees, 2^(depth-1) paths, no entries at all.
+func sharedChain(depth int) *mnode {
+	var node *mnode
+	for level := 0; level < depth; level++ {
+		n := &mnode{HasData: true, UFS: hamtFields(8, []byte{3})}
+		if node != nil {
+			n.Links = []mlink{{Name: strp("0"), Tsize: i64p(1), Child: node}, {Name: strp("1"), Tsize: i64p(1), Child: node}}
+		} else {
+			n.UFS = hamtFields(8, nil)
+		}
+		node = n
+	}
+	return node
+}
+
+// TestC13_K_SharedSubtrees probes the recorded finding C13-shared-subtree-iteration (iterating a sharded directory whose shards
+// are shared between several links takes work exponential in the number of blocks) and checks that nothing else about such
+// DAGs got worse: Length() and lookups, which memoise per shard, must stay linear.
+func TestC13_K_SharedSubtrees(t *testing.T) {
+	st := NewStore()
+	ls := st.LinkSystem()
+	root, err := sharedChain(16).store(st, ls)
+	if err != nil {
+		t.Fatal(err)
+	}
+	rn, err := loadReified(ls, root, "unixfs")
+	if err != nil {
+		t.Fatalf("reify: %v", err)
+	}
+	steps := 0
+	p, _ := safe(func() {
+		for it := rn.MapIterator(); !it.Done() && steps < 1<<20; {
+			_, _, _ = it.Next()
+			steps++
+		}
+	})
+	if p != nil {
+		fmt.Printf("FINDING property=C13 key=C13-shared-subtree-panic :: iterating a 16-block HAMT with shared shards panicked: %v\n", p)
+	} else if steps > 2*2*16+10 {
+		fmt.Printf("FINDING property=C13 key=C13-shared-subtree-iteration :: full iteration of a 16-block sharded directory whose shards are each linked twice took %d steps (2 x links + 10 = %d): work grows as 2^blocks\n", steps, 2*2*16+10)
+	}
+	// Length() and lookups on a 40-block chain (2^39 paths) must return promptly: they are memoised per shard / follow one path
+	st2 := NewStore()
+	ls2 := st2.LinkSystem()
+	root2, err := sharedChain(40).store(st2, ls2)
+	if err != nil {
+		t.Fatal(err)
+	}
+	rn2, err := loadReified(ls2, root2, "unixfs")
+	if err != nil {
+		t.Fatalf("reify: %v", err)
+	}
+	done := make(chan string, 1)
+	go func() {
+		_ = rn2.Length()
+		for _, k := range []string{"a", "b", "zz", ""} {
+			_, _ = rn2.LookupByString(k)
+		}
+		_, e := ls2.KnownReifiers["unixfs-preload"](lc0, mustLoad(ls2, root2), ls2)
+		done <- fmt.Sprint(e)
+	}()
+	select {
+	case <-done:
+	case <-time.After(20 * time.Second):
+		fmt.Printf("FINDING property=C13 key=C13-shared-subtree-length :: Length() / lookups / preload of a 40-block sharded directory with shared shards did not return within 20s (they take microseconds when memoised per shard)\n")
+	}
+	if loads := len(st2.ReadLog()); loads > 200*40 {
+		fmt.Printf("FINDING property=C13 key=C13-shared-subtree-loads :: %d block loads for a 40-block DAG\n", loads)
+	}
+}
+
+func mustLoad(ls *ipld.LinkSystem, c cid.Cid) datamodel.Node {
+	n, err := loadPlain(ls, c)
+	if err != nil {
+		panic(err)
+	}
+	return n
 }
